@@ -5,7 +5,7 @@ set -eu
 cd "$(dirname "$(readlink -f "$0")")/harness"
 export CARGO_NET_OFFLINE=true
 exec 9>/verif/harness/.build.lock
-flock 9
+flock -w 900 9 || { echo "build lock busy for 15 min" >&2; exit 1; }
 cp /repo/Cargo.lock Cargo.lock
 cargo build --release --offline 2>&1 | grep -vE "^\s*(Compiling|Fresh|Finished|warning: unused|Blocking)" | grep -E "error|warning: unexpected|Finished" || true
 test -x target/release/nlrun
